@@ -16,6 +16,35 @@ TRUSTED = ("Trusted base: the stdlib ast parser; the resolver of gfaverif/model.
            "named structural clauses, not the behaviour as a whole.")
 
 CHECKS = {
+    "C10": dict(
+        technique="interprocedural may-write effect and alias analysis "
+                  "(whole-program fixpoint over the syntax trees, "
+                  "class-hierarchy + name-based call resolution) with a "
+                  "reviewed whitelist (static analysis)",
+        engine="EFFECT",
+        design_ref="DESIGN.md section 3.3 and section 4, C10",
+        text="Partial, strong on its clause. For each of the ~400 functions "
+             "of the enumerated read-only surface (string conversion, reads, "
+             "validation, clone, comparison/diff, alignment and link queries, "
+             "neighbourhood/topology queries, group resolution, searches, all "
+             "datatype codecs) the transitive may-write summary, computed to "
+             "a fixpoint over all 731 functions, contains no write to tracked "
+             "state reachable from the receiver, an argument or a module-level "
+             "table, except five individually justified whitelisted effects "
+             "(lazy decode, datatype cache, empty _refs, error flag, the "
+             "sequence swap whose save/restore pairing is checked). A "
+             "reachable store into receiver-reachable state is a modification "
+             "by a read-only call, so the clause is necessary for the "
+             "property; it covers every CIGAR, link and graph at once, where "
+             "tests sample a few. Violations are reported at the store, with "
+             "the read-only entry points that reach it and a call chain.",
+        note="Undecided: that repeated queries return equal values (follows "
+             "for effect-free deterministic code, not separately proved). "
+             "Over-approximation: receivers the resolver cannot type are "
+             "resolved by method name; operator overloads (+ on FieldArray) "
+             "are not resolved; heap stores are effects, not points-to facts; "
+             "writes to attributes outside the tracked-state list (e.g. a new "
+             "cache attribute) are not reported. " + TRUSTED),
     "C11": dict(
         technique="decision-table extraction by abstract interpretation of the "
                   "syntax tree over the complete finite domain, compared with "
@@ -148,6 +177,11 @@ def main():
              "serves_properties": sorted(CHECKS),
              "kind_free_text": "whole-program index: namespace, classes, C3 MRO, "
                                "record tables with import-time post-processing"},
+            {"name": "EFFECT", "path": "gfaverif/effects.py",
+             "serves_properties": [p for p in sorted(CHECKS)
+                                   if "EFFECT" in CHECKS[p]["engine"]],
+             "kind_free_text": "interprocedural may-write effect / alias "
+                               "analysis with provenance chains"},
             {"name": "TABLE", "path": "gfaverif/tables.py",
              "serves_properties": [p for p in sorted(CHECKS)
                                    if "TABLE" in CHECKS[p]["engine"]],
